@@ -165,6 +165,7 @@ public:
 private:
     struct ipsec_header {
         uint8_t next_header, length;
+        uint16_t reserved;
         uint32_t spi, seq_number;
     };
 
